@@ -29,10 +29,10 @@ UNITS = [dict(
         b == 255 ==> r == a,
         a == 0 ==> r == 0,
         r <= a && r <= b,""",
-                 inserts=[dict(before="let tmp", text="""    proof {
+                 inserts=[dict(at="start", text="""    proof {
         assert((a as u32) * (b as u32) <= 65025) by(nonlinear_arith) requires a <= 255, b <= 255;
     }"""),
-                          dict(after="let tmp", text="""    proof {
+                          dict(at="start", text="""    proof {
         let p: u32 = (a as u32 * b as u32) as u32;
         assert(p <= 65025 ==> add(add(p, 128) >> 8, add(p, 128)) >> 8 == (2 * p + 255) / 510) by(bit_vector);
         assert(p <= 65025 ==> add(add(p, 128) >> 8, add(p, 128)) <= 0xffff_ffffu32 - 0 && add(p,128) == p + 128 && add(add(p, 128) >> 8, add(p, 128)) == (add(p, 128) >> 8) + add(p, 128)) by(bit_vector);
@@ -50,10 +50,10 @@ UNITS = [dict(
         b == 65535 ==> r == a,
         a == 0 ==> r == 0,
         r <= a && r <= b,""",
-                 inserts=[dict(before="let tmp", text="""    proof {
+                 inserts=[dict(at="start", text="""    proof {
         assert((a as u32) * (b as u32) <= 4294836225) by(nonlinear_arith) requires a <= 65535, b <= 65535;
     }"""),
-                          dict(after="let tmp", text="""    proof {
+                          dict(at="start", text="""    proof {
         let p: u32 = (a as u32 * b as u32) as u32;
         assert(p <= 4294836225u32 ==> add(add(p, 0x8000) >> 16, add(p, 0x8000)) >> 16 == (2 * (p as u64) + 65535) / 131070) by(bit_vector);
         assert(p <= 4294836225u32 ==> add(p, 0x8000) == p + 0x8000 && add(add(p, 0x8000) >> 16, add(p, 0x8000)) == (add(p, 0x8000) >> 16) + add(p, 0x8000)) by(bit_vector);
